@@ -157,7 +157,16 @@ fn common(s: &Scenario, f: &Fault, r: &RunResult, out: &mut Vec<Violation>) {
         return;
     }
     if has_panic(&r.stderr) {
-        out.push(Violation::new("X5-no-panic", &sig("panic"), format!("panic message on stderr: {}", short(&r.stderr))));
+        // signature: where it happens (scenario kind, launched program, notable options) and the
+        // panic message, without run-specific numbers
+        let text = String::from_utf8_lossy(&r.stderr).to_string();
+        let msg: String = text.lines().skip_while(|l| !l.contains("panicked at")).nth(1).unwrap_or("").chars().take(70).collect();
+        let prog = s.sub.split('-').next().unwrap_or("");
+        let mut psig = format!("{}:{}:panic:{}", s.kind, prog, msg.trim());
+        if s.spec.args.iter().any(|a| a == "--color-only") {
+            psig.push_str(":color-only");
+        }
+        out.push(Violation::new("X5-no-panic", &psig, format!("panic message on stderr: {}", short(&r.stderr))));
     }
     if let Some(sg) = r.signal {
         out.push(Violation::new("X5-no-signal", &sig("signal"), format!("delta died by signal {}", sg)));
@@ -232,7 +241,9 @@ pub fn evaluate(s: &Scenario, f: &Fault, refi: &RefInfo, r: &RunResult) -> Vec<V
     let mut out = Vec::new();
     let sig = |o: &str| format!("{}:{}:{}:{}", s.kind, s.sub, f.kind(), o);
     common(s, f, r, &mut out);
-    if r.timed_out {
+    if r.timed_out || out.iter().any(|v| v.oracle == "X5-no-panic") {
+        // everything else about this run (exit status, missing output) is a consequence
+        out.retain(|v| v.oracle == "X5-no-panic" || v.oracle == "X6-terminates");
         return out;
     }
     let got = delivered(s, r);
@@ -663,7 +674,7 @@ pub fn budget(tier: &str) -> Budget {
     if tier == "thorough" {
         Budget { scenarios: 1200, big_scenarios: 40, max_k_per_scenario: 100000, transparent_per_scenario: 4, quit_per_scenario: 3 }
     } else {
-        Budget { scenarios: 48, big_scenarios: 3, max_k_per_scenario: 100000, transparent_per_scenario: 2, quit_per_scenario: 2 }
+        Budget { scenarios: 32, big_scenarios: 2, max_k_per_scenario: 100000, transparent_per_scenario: 2, quit_per_scenario: 2 }
     }
 }
 
